@@ -236,6 +236,10 @@ def replay_file(path):
         fn(cc, **rec["case"].get("kwargs", {}))
     except core.ConcStop:
         pass
+    except Exception as ex:  # noqa
+        if rec["label"] == "D-RAISE" and core.raised_in_repo(ex) and not cc.conc_assume_failed:
+            return True, dict(label="D-RAISE", info=f"raised {type(ex).__name__}: {ex}"[:300])
+        raise
     finally:
         cc.restore_patches()
         core._CTX = None
